@@ -10,15 +10,23 @@ Written from the property statement, not from the code:
 Oracle (per saved program p, q = read-back of the .bin written next to the source text):
   indistinguishable   canon(q) == canon(p): the two object graphs are isomorphic - same classes, same attributes in the
                       same order, equal atoms, same aliasing between mutable objects (identity of immutable atoms and
-                      tuples is not observable and is ignored); and every symbol-table query answers alike
-                      (names per namespace and kind, reverse lookup declaration -> namespace).
+                      tuples is not observable and is ignored; a dict is its item sequence inserted again, because a
+                      hash table cannot be stored).  This holds for every read-back of the file, also for one made
+                      after an earlier read-back has been mutated (--replay with several iterations).
+                      Every scoped query of the symbol table answers alike (names per namespace and kind), and so does
+                      the reverse lookup declaration -> namespace: check [roundtrip-context] for AST declarations
+                      (identity-hashed keys), check [roundtrip-reverse-index-of-types] for type parameters
+                      (value-hashed, mutable keys) and the size of the reverse index.
   identical text      for each of the four translators, translate(q) == translate(p) (an exception counts as an outcome);
                       in the program's own language the text must also equal the source file stored next to the .bin.
   same mutation       with the generator of random choices put in the same state, mutation(q) gives the same outcome as
-                      mutation(p): same "not transformed"/flag/error message/exception, isomorphic result, identical
-                      text of the result in the four languages.  q is taken both untouched (--replay) and after it has
-                      been translated (--replay --keep-all).
-  stable dump         b2 = dump(load(dump p)); dump(load(b2)) == b2 byte for byte, and load(b2) is still isomorphic to p.
+                      mutation(p): same "not transformed"/flag/error message/exception, same generator state afterwards,
+                      equal result (class by class, attribute by attribute; sharing is not compared here because a
+                      mutation may install interpreter-wide singletons, e.g. built-in type objects, of which a
+                      read-back program holds its own copies), identical text of the result in the four languages.
+                      q is taken both untouched (--replay) and after it has been translated (--replay --keep-all).
+  stable dump         q1 = load(dump p), b2 = dump(q1), q2 = load(b2): dump(q2) == b2 byte for byte and q2 is isomorphic
+                      to q1.
                       (dump(p) == b2 byte for byte is NOT required: pickle memoises by object identity, and the identity
                       of equal immutable strings is not preserved by any read-back; measured on the unchanged tree:
                       about one third of the programs differ there by a few memo opcodes.)
@@ -59,10 +67,10 @@ LINEAGES = {
     'quick': ('EEO', 'OE'),
     'thorough': ('EEO', 'EOE', 'OEO', 'OO'),
 }
-BASE_SEEDS = {'quick': 5, 'thorough': 40}     # seeds 0..n-1 for each of the four languages
-EXTRA_SEEDS = {'quick': 1, 'thorough': 8}     # additional seeds per language drawn from VERIF_SEED
-WORKERS = {'quick': 6, 'thorough': 12}
-BUDGET_S = {'quick': 50, 'thorough': 800}
+BASE_SEEDS = {'quick': (1, 4), 'thorough': tuple(range(24))}   # fixed list, used for each of the four languages
+EXTRA_SEEDS = {'quick': 1, 'thorough': 6}     # additional seeds drawn from VERIF_SEED (extend, never replace)
+WORKERS = {'quick': 8, 'thorough': 12}        # the real generator / translators / mutations cost 1-15 s per lineage
+BUDGET_S = {'quick': 50, 'thorough': 800}     # tasks not finished in time are counted in `unfinished_tasks`
 
 
 class _R:
@@ -70,6 +78,7 @@ class _R:
 
 
 _LOADED = None
+_TMPROOT = None          # set by run(): one directory for all tasks, removed at the end even if tasks are killed
 
 
 def _install_node_hash(node_cls):
@@ -117,6 +126,7 @@ def _load():
         shutil.rmtree(base, ignore_errors=True)
     R = _R()
     R.H = H
+    R.Node = node.Node
     R.utils = importlib.import_module('src.utils')
     R.Generator = importlib.import_module('src.generators.generator').Generator
     R.ProgramProcessor = importlib.import_module('src.modules.processor').ProgramProcessor
@@ -161,6 +171,100 @@ def _state(o):
     return items
 
 
+_PLAIN_KEYS = (str, int, tuple)
+
+
+def _reinserted(d):
+    """the persistent content of a dict is its item sequence: a hash table cannot be stored, every read-back has to
+    insert the items again.  For a healthy dict this is the dict itself; if keys were mutated after insertion (stale
+    hashes, two equal keys) it is what any faithful read-back must produce."""
+    if all(type(k) in _PLAIN_KEYS and (type(k) is not tuple or all(type(e) in (str, int) for e in k)) for k in d):
+        return d
+    r = {}
+    for k, v in d.items():
+        r[k] = v
+    return r
+
+
+def vdigest(root):
+    """value digest of an object graph: like canon() but sharing between objects is not observed (an object is its
+    class + attribute values); used for results of mutations, which may legitimately refer to interpreter-wide
+    singletons (built-in type objects) that a read-back program holds as its own copies.  returns (digest, memo)"""
+    memo = {}
+    onpath = {}
+    keep = []
+
+    def go(o):
+        t = type(o)
+        if t in _ATOMS:
+            return hash((t.__name__, repr(o) if t is float else o))
+        if t is tuple:
+            return hash(('tuple',) + tuple(go(x) for x in o))
+        if isinstance(o, type) or callable(o) and hasattr(o, '__qualname__') and not hasattr(o, '__self__') \
+                and getattr(o, '__dict__', None) in (None, {}):
+            return hash(('global', getattr(o, '__module__', None), o.__qualname__))
+        i = id(o)
+        if i in memo:
+            return memo[i]
+        if i in onpath:
+            return hash(('cycle', len(onpath) - onpath[i]))
+        onpath[i] = len(onpath)
+        keep.append(o)
+        name = t.__module__ + '.' + t.__qualname__
+        if isinstance(o, list):
+            d = hash(('list', name) + tuple(go(x) for x in o))
+        elif isinstance(o, dict):
+            d = hash(('dict', name, go(getattr(o, 'default_factory', None)))
+                     + tuple((go(k), go(v)) for k, v in _reinserted(o).items()))
+        elif isinstance(o, (set, frozenset)):
+            d = hash(('set', name) + tuple(sorted(go(x) for x in o)))
+        else:
+            d = hash(('obj', name) + tuple((k, go(v)) for k, v in _state(o)))
+        del onpath[i]
+        memo[i] = d
+        return d
+    return go(root), memo, keep
+
+
+def vdiff(a, b, ma, mb, path='program', depth=0):
+    """path to the first place where two value-compared graphs differ"""
+    def same(x, y):
+        if type(x) is not type(y):
+            return False
+        if id(x) in ma and id(y) in mb:
+            return ma[id(x)] == mb[id(y)]
+        return vdigest(x)[0] == vdigest(y)[0]
+    if type(a) is not type(b):
+        return dict(inside=path, expected=type(a).__name__ + ' ' + repr(a)[:120],
+                    actual=type(b).__name__ + ' ' + repr(b)[:120])
+    if depth > 300:
+        return dict(inside=path, expected='<differs below>', actual='<differs below>')
+    if isinstance(a, (list, tuple)):
+        if len(a) != len(b):
+            return dict(inside=path, expected='%d elements' % len(a), actual='%d elements' % len(b))
+        pairs = [('[%d]' % i, x, y) for i, (x, y) in enumerate(zip(a, b))]
+    elif isinstance(a, dict):
+        ia, ib = list(_reinserted(a).items()), list(_reinserted(b).items())
+        if len(ia) != len(ib):
+            return dict(inside=path, expected='%d entries' % len(ia), actual='%d entries' % len(ib))
+        pairs = []
+        for (k1, v1), (k2, v2) in zip(ia, ib):
+            pairs.append(('<key %s>' % str(k1)[:40], k1, k2))
+            pairs.append(('[%s]' % str(k1)[:40], v1, v2))
+    elif type(a) in _ATOMS or isinstance(a, (set, frozenset, type)) or not hasattr(a, '__dict__'):
+        return dict(inside=path, expected=repr(a)[:160], actual=repr(b)[:160])
+    else:
+        sa, sb = _state(a), _state(b)
+        if [k for k, _ in sa] != [k for k, _ in sb]:
+            return dict(inside=path + ' (%s)' % type(a).__name__, expected='attributes %r' % [k for k, _ in sa],
+                        actual='attributes %r' % [k for k, _ in sb])
+        pairs = [('.' + k, x, y) for (k, x), (_, y) in zip(sa, sb)]
+    for lbl, x, y in pairs:
+        if not same(x, y):
+            return vdiff(x, y, ma, mb, path + lbl, depth + 1)
+    return dict(inside=path, expected='<digest differs>', actual='<digest differs>')
+
+
 def canon(root):
     """pre-order token list of the object graph; mutable objects are numbered by first visit, so two graphs have the
     same token list iff they are isomorphic (attribute order, dict order and list order included)"""
@@ -196,10 +300,11 @@ def canon(root):
             out.append(('list', name, len(o)))
             stack.extend(reversed(o))
         elif isinstance(o, dict):
-            out.append(('dict', name, len(o)))
+            items = list(_reinserted(o).items())
+            out.append(('dict', name, len(items)))
             if hasattr(o, 'default_factory'):
                 stack.append(o.default_factory)
-            for k, v in reversed(list(o.items())):
+            for k, v in reversed(items):
                 stack.append(v)
                 stack.append(k)
         elif isinstance(o, (set, frozenset)):
@@ -219,37 +324,47 @@ def canon(root):
     return out
 
 
-def canon_diff(a, b):
-    """None if equal, else a short description of the first difference (with the enclosing object / attribute)"""
+def canon_diff(a, b, ra=None, rb=None):
+    """None if the token lists are equal, else a short description of the first difference; with the two roots given,
+    the place is named by an attribute path"""
     if a == b:
         return None
     n = min(len(a), len(b))
     i = next((k for k in range(n) if a[k] != b[k]), n)
-    where = []
-    for k in range(i, -1, -1):
-        tok = a[k] if k < len(a) else None
-        if tok and tok[0] == 'attr' and not where:
-            where.append('.' + str(tok[1]))
-        if tok and tok[0] == 'obj':
-            where.append(tok[1])
-            break
-    return dict(at_token=i, inside=''.join(reversed(where)),
-                expected=repr(a[i] if i < len(a) else '<end>')[:160], actual=repr(b[i] if i < len(b) else '<end>')[:160],
-                tokens_expected=len(a), tokens_actual=len(b))
+    d = dict(at_token=i, expected=repr(a[i] if i < len(a) else '<end>')[:160],
+             actual=repr(b[i] if i < len(b) else '<end>')[:160], tokens_expected=len(a), tokens_actual=len(b))
+    if ra is not None:
+        da, db = vdigest(ra), vdigest(rb)
+        if da[0] != db[0]:
+            v = vdiff(ra, rb, da[1], db[1])
+            d.update(inside=v['inside'], expected=v['expected'], actual=v['actual'])
+        else:
+            d['inside'] = '<equal attribute values; the sharing between mutable objects differs>'
+    return d
 
 
-def context_view(program):
-    """everything the symbol table answers about the program, with declarations named by position"""
+def context_view(program, node_cls):
+    """everything the symbol table answers about the program, with declarations named by position:
+    names   - (namespace, kind, name, class of the declaration) in the order of the scoped queries
+    rev     - reverse lookup (declaration -> namespace) of every listed AST declaration (identity-hashed objects)
+    rev_ty  - reverse lookup of every listed type (type parameters: value-hashed, mutable objects used as keys)"""
     ctx = program.context
     getters = dict(types=ctx.get_types, funcs=ctx.get_funcs, lambdas=ctx.get_lambdas, vars=ctx.get_vars,
                    classes=ctx.get_classes, decls=ctx.get_declarations)
-    view = []
+    names, rev, rev_ty = [], [], []
     for ns in list(ctx._context):
         for kind in KINDS:
             cur = getters[kind](ns, only_current=True)
             for name, decl in cur.items():
-                view.append((ns, kind, name, type(decl).__name__, ctx.get_namespace(decl)))
-    return view
+                names.append((ns, kind, name, type(decl).__name__))
+                (rev if type(decl).__hash__ is node_cls.__hash__ else rev_ty).append((ns, kind, name, ctx.get_namespace(decl)))
+    rev_ty.append(('<number of entries of the reverse index>', len(ctx._namespaces)))
+    return names, rev, rev_ty
+
+
+def _list_diff(va, vb):
+    k = next((i for i in range(min(len(va), len(vb))) if va[i] != vb[i]), min(len(va), len(vb)))
+    return dict(expected=repr(va[k] if k < len(va) else '<end>'), actual=repr(vb[k] if k < len(vb) else '<end>'))
 
 
 # ----------------------------------------------------------------------------------------------------------------------
@@ -324,7 +439,7 @@ def run_lineage(R, lang, seed, word, stop_first=False):
         v.update(kw)
         out['violations'].append(v)
 
-    tmp = tempfile.mkdtemp(prefix='c13_run_')
+    tmp = tempfile.mkdtemp(prefix='c13_run_', dir=_TMPROOT)
     try:
         utils.random.r.seed(seed)
         utils.random.reset_word_pool()
@@ -335,15 +450,15 @@ def run_lineage(R, lang, seed, word, stop_first=False):
         except Exception as e:
             out['skipped'] = 'generator failed: %s: %s' % (type(e).__name__, str(e)[:100])
             return out
+        next_tp = None
         for si in range(len(word) + 1):
             stage = 'generated' if si == 0 else word[:si]
             # --- the driver translates, then saves text and .bin side by side
-            try:
-                own_text = utils.translate_program(own('src.pkg', H.cli_args.options['Translator']), p)
-            except Exception as e:
-                out['skipped'] = 'translator failed on the original at stage %s: %s: %s' % (stage, type(e).__name__,
-                                                                                           str(e)[:100])
+            tp = next_tp if next_tp is not None else _texts(R, p)
+            if tp[lang][0] != 'text':
+                out['skipped'] = 'translator failed on the original at stage %s: %s' % (stage, tp[lang][1:])
                 return out
+            own_text = tp[lang][1]
             src_file = os.path.join(tmp, 'stage%d' % si, own.get_filename())
             H.save_program(p, own_text, src_file)
             with open(src_file + '.bin', 'rb') as f:
@@ -357,17 +472,22 @@ def run_lineage(R, lang, seed, word, stop_first=False):
             # --- indistinguishable: structure and symbol table
             proc_a, q_a = read_back()
             out['checks'] += 1
-            d = canon_diff(cp, canon(q_a))
+            d = canon_diff(cp, canon(q_a), p, q_a)
             if d:
                 bad('roundtrip-structure', 'src.utils.load_program', stage, what='read-back program is not isomorphic '
                     'to the original', **d)
-            out['checks'] += 1
-            va, vb = context_view(p), context_view(q_a)
-            if va != vb:
-                k = next((i for i in range(min(len(va), len(vb))) if va[i] != vb[i]), min(len(va), len(vb)))
-                bad('roundtrip-context', 'src.ir.context.Context', stage, what='symbol table of the read-back program '
-                    'answers differently', expected=repr(va[k] if k < len(va) else '<end>'),
-                    actual=repr(vb[k] if k < len(vb) else '<end>'))
+            out['checks'] += 2
+            va, vb = context_view(p, R.Node), context_view(q_a, R.Node)
+            if va[0] != vb[0]:
+                bad('roundtrip-context', 'src.ir.context.Context', stage, what='scoped queries of the symbol table of '
+                    'the read-back program answer differently', **_list_diff(va[0], vb[0]))
+            elif va[1] != vb[1]:
+                bad('roundtrip-context', 'src.ir.context.Context.get_namespace', stage, what='reverse lookup of a '
+                    'declaration answers differently on the read-back program', **_list_diff(va[1], vb[1]))
+            if va[2] != vb[2]:
+                bad('roundtrip-reverse-index-of-types', 'src.ir.context.Context.get_namespace', stage,
+                    what='reverse lookup of a type parameter (value-hashed key) answers differently on the read-back '
+                    'program', **_list_diff(va[2], vb[2]))
             # --- stable dump
             out['checks'] += 1
             f2 = os.path.join(tmp, 'stage%d' % si, 'again.bin')
@@ -384,13 +504,13 @@ def run_lineage(R, lang, seed, word, stop_first=False):
                 bad('dump-stable', 'src.utils.dump_program', stage, what='dump(load(dump(load(dump p)))) differs from '
                     'dump(load(dump p))', expected='%d bytes sha %s' % (len(b2), _sha(b2)),
                     actual='%d bytes sha %s, first difference at byte %d' % (len(b3), _sha(b3), k))
-            d = canon_diff(cp, canon(q_b))
+            d = canon_diff(canon(q_a), canon(q_b), q_a, q_b)
             if d:
-                bad('dump-stable', 'src.utils.dump_program', stage, what='program dumped again and read back is not '
-                    'isomorphic to the original', **d)
+                bad('dump-stable', 'src.utils.dump_program', stage, what='the read-back program dumped again and read '
+                    'back once more is not isomorphic to the first read-back', **d)
             # --- identical text in every language (fresh read-back, as --replay starts from the file)
             proc_c, q_c = read_back()
-            tp, tq = _texts(R, p), _texts(R, q_c)
+            tq = _texts(R, q_c)
             for l2 in LANGS:
                 out['checks'] += 1
                 if tp[l2] != tq[l2]:
@@ -417,8 +537,12 @@ def run_lineage(R, lang, seed, word, stop_first=False):
             end_state = utils.random.r.getstate()
             rec['mutation'] = letter
             rec['transformed'] = o_p[0] == 'transformed'
-            cr = canon(r_p) if r_p is not None else None
-            tr = _texts(R, r_p) if r_p is not None else None
+            if o_p[0] == 'exception':
+                e_p = None
+            else:
+                e_p = r_p if r_p is not None else p      # not transformed: the (in place) mutation left p as it is
+            cr = vdigest(e_p) if e_p is not None else None
+            tr = _texts(R, e_p) if e_p is not None else None
             for mode, pr, q in (('--replay', proc_a, q_a), ('--replay --keep-all', proc_c, q_c)):
                 out['checks'] += 1
                 o_q, r_q = _mutate(R, pr, letter, q, st)
@@ -430,25 +554,34 @@ def run_lineage(R, lang, seed, word, stop_first=False):
                     bad('mutation-outcome', fn, stage, mutation=letter, mode=mode, what='mutation of the read-back '
                         'program consumed different random choices', expected='same generator state afterwards',
                         actual='different generator state')
-                if r_p is None:
+                if e_p is None:
                     continue
-                d = canon_diff(cr, canon(r_q))
-                if d:
+                e_q = r_q if r_q is not None else q
+                cq = vdigest(e_q)
+                if cq[0] != cr[0]:
                     bad('mutation-result', fn, stage, mutation=letter, mode=mode, what='mutated read-back program is '
-                        'not isomorphic to the mutated original', **d)
-                tq2 = _texts(R, r_q)
+                        'not equal (class by class, attribute by attribute) to the mutated original',
+                        **vdiff(e_p, e_q, cr[1], cq[1]))
+                tq2 = _texts(R, e_q)
                 for l2 in LANGS:
                     if tr[l2] != tq2[l2]:
                         bad('mutation-text', fn, stage, mutation=letter, mode=mode, translator=l2,
                             what='text of the mutated read-back program differs', **_first_diff(tr[l2], tq2[l2]))
+            # --- the file can be replayed any number of times: a later read-back is still the saved program, whatever
+            #     was done to earlier read-backs in this process
+            out['checks'] += 1
+            q_d = read_back()[1]
+            d = canon_diff(cp, canon(q_d))          # p has been mutated by now: no path, token position only
+            if d:
+                bad('roundtrip-structure', 'src.utils.load_program', stage, what='a later read-back of the same .bin '
+                    '(after mutation %s was applied to earlier read-backs) is not isomorphic to the saved original'
+                    % letter, **d)
             utils.random.r.setstate(end_state)
-            if r_p is None:
-                if o_p[0] == 'exception':
-                    out['skipped'] = 'mutation %s failed on the original at stage %s: %s' % (letter, stage, o_p[1:])
-                    break
-                # not transformed: the driver keeps the program (mutations work in place); go on with it
-            else:
-                p = r_p
+            if e_p is None:
+                out['skipped'] = 'mutation %s failed on the original at stage %s: %s' % (letter, stage, o_p[1:])
+                break
+            p = e_p
+            next_tp = tr
         return out
     finally:
         shutil.rmtree(tmp, ignore_errors=True)
@@ -457,7 +590,10 @@ def run_lineage(R, lang, seed, word, stop_first=False):
 def _task(t):
     lang, seed, word, stop_first = t
     try:
-        return run_lineage(_LOADED, lang, seed, word, stop_first)
+        c0 = time.process_time()
+        r = run_lineage(_LOADED, lang, seed, word, stop_first)
+        r['cpu_s'] = round(time.process_time() - c0, 2)
+        return r
     except Exception:
         return dict(language=lang, seed=seed, lineage=word, stages=[], violations=[], checks=0,
                     skipped=None, crashed=traceback.format_exc()[-1500:])
@@ -466,14 +602,16 @@ def _task(t):
 def task_list(tier, seed):
     rnd = random.Random(seed)
     extra = sorted(rnd.sample(range(1000, 1000000), EXTRA_SEEDS[tier]))
-    seeds = list(range(BASE_SEEDS[tier])) + extra
+    seeds = list(BASE_SEEDS[tier]) + extra
     return [(lang, s, w) for s in seeds for lang in LANGS for w in LINEAGES[tier]], seeds
 
 
 def run(tier, seed, stop_first=False):
+    global _TMPROOT
     t0 = time.time()
     _load()
     tasks, seeds = task_list(tier, seed)
+    _TMPROOT = tempfile.mkdtemp(prefix='c13_')
     ctx = multiprocessing.get_context('fork')
     results = []
     unfinished = 0
@@ -492,8 +630,11 @@ def run(tier, seed, stop_first=False):
     finally:
         pool.terminate()
         pool.join()
+        shutil.rmtree(_TMPROOT, ignore_errors=True)
+        _TMPROOT = None
     evaluations = 0
     checks = 0
+    cpu = 0.0
     distinct = set()
     violations = []
     skipped = []
@@ -508,6 +649,7 @@ def run(tier, seed, stop_first=False):
         if r['skipped']:
             skipped.append(dict(language=r['language'], seed=r['seed'], lineage=r['lineage'], reason=r['skipped']))
         checks += r['checks']
+        cpu += r.get('cpu_s', 0)
         for s in r['stages']:
             evaluations += 1
             kind = 'generated' if s['stage'] == 'generated' else ('overwritten' if 'O' in s['stage'] else 'erased')
@@ -516,7 +658,8 @@ def run(tier, seed, stop_first=False):
                 transformed[s['mutation']] += 1
             if s['top_level_decls'] >= 1:
                 distinct.add(s['bin_sha'])
-        if len(samples) < 3 and r['stages'] and r['lineage'] == LINEAGES[tier][0] and r['seed'] == len(samples):
+        if (len(samples) < 3 and r['stages'] and r['lineage'] == LINEAGES[tier][0] and r['seed'] == seeds[0]
+                and r['language'] == LANGS[len(samples)]):
             samples.append(dict(language=r['language'], seed=r['seed'], lineage=r['lineage'],
                                 stages=[dict(stage=s['stage'], bin_sha=s['bin_sha'], bin_bytes=s['bin_bytes'],
                                              next_mutation=s.get('mutation'), transformed=s.get('transformed'))
@@ -530,20 +673,22 @@ def run(tier, seed, stop_first=False):
         evaluations=evaluations, distinct_nontrivial=len(distinct),
         rule='programs of src.generators.generator.Generator for seeds %s x languages %s, each regenerated for the '
              'lineages %s (E = TypeErasure, O = TypeOverwriting, applied through ProgramProcessor); at every stage '
-             '(generated, after each erasure, after overwriting) the program is translated and saved with '
-             'hephaestus.save_program, read back with ProgramProcessor.get_program(--replay) and checked: isomorphic '
-             'object graph and identical symbol-table answers; identical text from all four translators and identical '
-             'to the stored source file; next mutation under the same random state gives the same outcome, an '
-             'isomorphic result and identical texts, on an untouched and on an already translated read-back; '
-             'dump(load(dump(load(dump p)))) == dump(load(dump p)) byte for byte and still isomorphic to p. An '
-             'evaluation is one saved program; it is non-trivial if it has >= 1 top-level declaration, distinct by '
-             'sha256 of its .bin. Not checkable in this domain: dump(p) == dump(load(dump p)) byte for byte (pickle '
-             'memoises by object identity of immutable strings, which no read-back preserves); programs of seeds on '
-             'which the generator or a mutation of the original itself fails are skipped and listed'
+             '(generated, after each erasure, after overwriting, and erasure after overwriting) the program is '
+             'translated and saved with hephaestus.save_program, read back with ProgramProcessor.get_program(--replay) '
+             'and checked: isomorphic object graph (also for a later read-back of the same file) and identical '
+             'symbol-table answers; identical text from all four translators and identical to the stored source file; '
+             'next mutation under the same random state gives the same outcome, the same random state afterwards, an '
+             'equal result and identical texts, on an untouched and on an already translated read-back; second dump is '
+             'byte-identical to the third and its read-back isomorphic. An evaluation is one saved program; it is '
+             'non-trivial if it has >= 1 top-level declaration, distinct by sha256 of its .bin. Not checkable in this '
+             'domain: dump(p) == dump(load(dump p)) byte for byte (pickle memoises by object identity of immutable '
+             'strings, which no read-back preserves). Seeds on which the generator or a mutation of the original '
+             'itself fails are listed under skipped (stages before the failure are evaluated); tasks that did not '
+             'finish within the time budget are counted in unfinished_tasks'
              % (seeds, list(LANGS), list(LINEAGES[tier])),
         samples=samples, violations=violations, checks_evaluated=checks, stages=per_stage,
         mutations_that_transformed=transformed, skipped=skipped, unfinished_tasks=unfinished,
-        tasks=len(tasks), wall_s=round(time.time() - t0, 1), exhaustive=False)
+        tasks=len(tasks), cpu_s=round(cpu, 1), wall_s=round(time.time() - t0, 1), exhaustive=False)
 
 
 def replay(fi):
